@@ -61,6 +61,7 @@ type coro struct {
 	where     string
 	ctx       execCtx
 	forked    bool // the go statement was executed while a symbolic branch was open
+	root      int  // index of the goroutine started by the harness this one descends from
 }
 
 type coroAbortT struct{}
@@ -78,6 +79,10 @@ func (e *Engine) loadCtx(x execCtx) {
 func (e *Engine) addCoro(st *State, cc *ssa.CallCommon, fnv, recv Value, args []Value, site string) {
 	co := &coro{id: len(e.coros), g: deferredGo{cc, fnv, recv, args, site, st.G},
 		resume: make(chan *State), yield: make(chan coroMsg), forked: e.isForked()}
+	co.root = co.id
+	if e.cur != nil {
+		co.root = e.cur.root
+	}
 	e.coros = append(e.coros, co)
 	e.Notes = append(e.Notes, "goroutine started at "+site+" runs as a coroutine (run until it blocks; scheduled by vfRunGoroutines and when the harness blocks)")
 }
@@ -117,6 +122,7 @@ func (e *Engine) stepCoro(st *State, co *coro, fire bool) bool {
 		co.started = true
 		go e.coroMain(co)
 	}
+	e.switchTo(st, co.root)
 	saved := e.saveCtx()
 	e.loadCtx(co.ctx)
 	e.cur = co
@@ -133,7 +139,26 @@ func (e *Engine) stepCoro(st *State, co *coro, fire bool) bool {
 	}
 	st.G, st.Heap = msg.st.G, msg.st.Heap
 	co.done, co.waitTimer, co.where = msg.done, msg.timer, msg.where
+	e.switchTo(st, -1)
 	return msg.progress
+}
+
+// switchTo tells the harness which party runs next (switch_hook): the harness can keep per-process
+// state (package-level variables of the code under test) apart for parties that stand for
+// different processes. The hook runs in the scheduler's context, between two parties.
+func (e *Engine) switchTo(st *State, root int) {
+	if e.SwitchHook == "" {
+		return
+	}
+	hf := e.Pkg.Func(e.SwitchHook)
+	if hf == nil {
+		panic(e.unsupported("switch hook " + e.SwitchHook + " not found"))
+	}
+	cur := e.cur
+	e.cur = nil
+	in := e.inRunCoros
+	e.callFunction(st, hf, []Value{IntV{e.C.BV(uint64(int64(root)), 64)}}, nil, "switch-hook")
+	e.cur, e.inRunCoros = cur, in
 }
 
 // runCoros schedules the coroutines until none of them can make progress, time included.
